@@ -8,7 +8,7 @@ export PYTHONPATH="$(pwd)/harness" PYTHONHASHSEED=0 PYTHONDONTWRITEBYTECODE=1
 /venv/bin/python - <<'PY'
 from fjverif import framework as fw
 import importlib
-for name in ('gen_facts_c01', 'gen_facts_c12', 'gen_facts_c13', 'gen_facts_c20', 'gen_facts_engpy', 'gen_facts_devices', 'gen_facts_loader', 'gen_facts_writer', 'gen_facts_breakpoints'):
+for name in ('gen_facts_c01', 'gen_facts_c12', 'gen_facts_c13', 'gen_facts_c20', 'gen_facts_engpy', 'gen_facts_devices', 'gen_facts_loader', 'gen_facts_writer', 'gen_facts_breakpoints', 'gen_facts_expr'):
     try:
         m = importlib.import_module('fjverif.' + name)
         if hasattr(m, 'write'):
